@@ -62,6 +62,23 @@ Fixpoint msgs_before_remove (c : Z) (l : list ev) : list Z :=
 Definition hmsgs (v : list hev) : list Z :=
   flat_map (fun h => match h with HMsg _ _ m => [m] | _ => [] end) v.
 
+(* ---- the acceptor pipeline, oldest connection first ---- *)
+Definition optl (o : option Z) : list Z := match o with Some c => [c] | None => [] end.
+Definition pipeline (s : st) : list Z :=
+  optl (shand s) ++ cch s ++ optl (ahand s) ++ backlog s.
+Definition count_add (c : Z) (l : list ev) : nat :=
+  length (filter (fun e => match e with EAdd c' => Z.eqb c c' | _ => false end) l).
+
+(* every connection the listener accepted is in exactly one place: still in the pipeline
+   (listener backlog, accept loop's hand, connChan, StartAcceptor's hand) or a session *)
+Record acc_ok (s : st) : Prop := mkAcc {
+  acc_nodup : NoDup (pipeline s);
+  acc_fresh : forall c, In c (pipeline s) -> aget c (conns s) = None;
+  acc_cap : (length (cch s) <= cchcap)%nat;
+  acc_all : forall c, In c (dialed s) -> In c (pipeline s) \/ aget c (conns s) <> None;
+  acc_dialed : forall c, In c (pipeline s) -> In c (dialed s)
+}.
+
 (* ---- id allocation ---- *)
 Definition M32 := two32 - 1.
 Definition add_ids (l : list hev) : list Z :=
